@@ -24,6 +24,9 @@ structure Operation (σ : Type) where
   opId : B
   summary : B
   description : B
+  tags : List B := []
+  deprecated : Bool := false
+  security : List (B × List B) := []   -- one single-scheme requirement per WithSecurity call
   params : List (Param σ)
   body : Option σ             -- requestBody {required: true, content: {"application/json": {schema}}}
   resps : List (Resp σ)
@@ -47,6 +50,7 @@ structure ParamSpec where
   required : Bool
   format : B
   enum : List B
+  dflt : Option DV := none
 
 inductive TagSel | query | path | header | cookie
   deriving DecidableEq, Repr
@@ -88,6 +92,27 @@ def inferFormat (env : Env) (m : FieldMeta) (t : Ty) : B :=
   else if derefPtr env t = .time then s "date-time"
   else []
 
+/-- `t.Kind()` of a primitive type after one pointer level (anything else: not a primitive) -/
+def primKind (env : Env) (t : Ty) : Option PKind :=
+  match derefPtr env t with
+  | .prim k => some k
+  | _ => none
+
+def parseBoolText (x : B) : Option Bool :=
+  if x = s "1" ∨ x = s "t" ∨ x = s "T" ∨ x = s "TRUE" ∨ x = s "true" ∨ x = s "True" then some true
+  else if x = s "0" ∨ x = s "f" ∨ x = s "F" ∨ x = s "FALSE" ∨ x = s "false" ∨ x = s "False" then some false
+  else none
+
+/-- `parseValue` (numbers: unsigned decimal literals, what the corpus uses; anything that does not
+    parse stays the string) -/
+def parseValue (env : Env) (x : B) (t : Ty) : Option DV :=
+  if x = [] then none
+  else match primKind env t with
+    | some .string => some (.str x)
+    | some .bool => (match parseBoolText x with | some b => some (.bool b) | none => some (.str x))
+    | some .iface | some .other | none => some (.str x)
+    | some _ => (match parseNat x with | some n => some (.num (itoa n)) | none => some (.str x))
+
 /-- the callback of `extractParamsFromTag` for one flattened field -/
 def paramOfField (env : Env) (sel : TagSel) (mt : FieldMeta × Ty) : Option ParamSpec :=
   let m := mt.1
@@ -104,7 +129,7 @@ def paramOfField (env : Env) (sel : TagSel) (mt : FieldMeta × Ty) : Option Para
         | some rest => fields rest
         | none => []
       some { name := name, loc := sel.loc, ty := t, required := isParamRequired env m t sel,
-             format := inferFormat env m t, enum := enum }
+             format := inferFormat env m t, enum := enum, dflt := parseValue env m.dflt t }
 
 def extractParamsFromTag (env : Env) (flat : List (FieldMeta × Ty)) (sel : TagSel) : List ParamSpec :=
   flat.filterMap (paramOfField env sel)
@@ -266,6 +291,9 @@ structure OpIn where
   opID : B
   req : Option Ty                          -- doc.RequestType
   resps : List (Nat × B × Option Ty)       -- doc.ResponseTypes (status, http.StatusText(status), type)
+  tags : List B := []                      -- doc.Tags
+  deprecated : Bool := false               -- doc.Deprecated
+  security : List (B × List B) := []       -- doc.Security (scheme, scopes)
   deriving Repr, Inhabited
 
 inductive Err | dupOp | status | noPaths | validation
@@ -274,10 +302,17 @@ inductive Err | dupOp | status | noPaths | validation
 /-- `convertOperation`: a RouteDoc is built only when there is something to document -/
 def OpIn.hasDoc (op : OpIn) : Bool := op.summary ≠ [] || op.description ≠ [] || !op.resps.isEmpty
 
+/-- `if ps.Default != nil { s.Default = ps.Default }` -/
+def setDflt (d : Option DV) (t : IR) : IR :=
+  match d with
+  | some x => t.modHead fun h => { h with dflt := some x }
+  | none => t
+
 /-- `paramSpecToParameter` -/
 def paramOfSpec (env : Env) (ps : ParamSpec) (st : Schemas) : Param IR × Schemas :=
   let r := gen env [] [] ps.ty st
-  let s1 := if ps.enum.isEmpty then r.1 else r.1.modHead fun h => { h with enum := ps.enum }
+  let s0 := setDflt ps.dflt r.1
+  let s1 := if ps.enum.isEmpty then s0 else s0.modHead fun h => { h with enum := ps.enum }
   let s2 := if ps.format ≠ [] then s1.modHead fun h => { h with format := ps.format } else s1
   ({ name := ps.name, loc := ps.loc, required := ps.required, schema := s2 }, r.2)
 
@@ -390,7 +425,8 @@ def buildOperation (env : Env) (op : OpIn) (st : Schemas) (seenOps : List B) :
       | .ok rr =>
         let resps := if rr.1.isEmpty then defaultResps else rr.1
         .ok ({ opId := opID, summary := op.summary, description := op.description, params := pr.1,
-               body := br.1, resps := resps }, rr.2, seenOps')
+               body := br.1, resps := resps, tags := op.tags, deprecated := op.deprecated,
+               security := op.security }, rr.2, seenOps')
 
 /-! ## Build -/
 
@@ -501,7 +537,12 @@ def kindString : Kind → B
 def optAttr (k : String) (c : Bool) (v : Sc) : List (B × Sc) := if c then [(s k, v)] else []
 
 /-- `schema30` on the scalar members; keys in byte order -/
-def head30 (h : Head) : Attrs :=
+def dvSc : DV → Sc
+  | .str v => .str v
+  | .num v => .num v
+  | .bool v => .bool v
+
+def head30r (h : Head) : Attrs :=
   optAttr "enum" (!h.enum.isEmpty) (.strs h.enum) ++
   optAttr "example" (h.exampleV ≠ []) (.str h.exampleV) ++
   optAttr "exclusiveMaximum" (match h.maximum with | some (_, true) => true | _ => false) (.bool true) ++
@@ -517,9 +558,14 @@ def head30 (h : Head) : Attrs :=
   optAttr "required" (!h.required.isEmpty) (.strs h.required) ++
   optAttr "type" (kindString h.kind ≠ []) (.str (kindString h.kind))
 
+def dfltAttrs (h : Head) : Attrs :=
+  match h.dflt with | some d => [(s "default", dvSc d)] | none => []
+
+/-- `schema30` on the scalar members; keys in byte order -/
+def head30 (h : Head) : Attrs := dfltAttrs h ++ head30r h
+
 /-- `schema31` on the scalar members -/
-def head31 (h : Head) : Attrs :=
-  optAttr "contentEncoding" (h.contentEncoding ≠ []) (.str h.contentEncoding) ++
+def head31r (h : Head) : Attrs :=
   optAttr "enum" (!h.enum.isEmpty) (.strs h.enum) ++
   optAttr "example" (h.exampleV ≠ []) (.str h.exampleV) ++
   optAttr "examples" (h.exampleV ≠ []) (.strs [h.exampleV]) ++
@@ -534,6 +580,9 @@ def head31 (h : Head) : Attrs :=
   optAttr "required" (!h.required.isEmpty) (.strs h.required) ++
   (let t := kindString h.kind
    if t = [] then [] else if h.nullable then [(s "type", .strs [t, s "null"])] else [(s "type", .str t)])
+
+def head31 (h : Head) : Attrs :=
+  optAttr "contentEncoding" (h.contentEncoding ≠ []) (.str h.contentEncoding) ++ dfltAttrs h ++ head31r h
 
 /-- insert a property keeping the keys in byte order (the order `encoding/json` writes map keys in) -/
 def PTree.insertSorted {α} (k : B) (v : Tree α) : PTree α → PTree α
@@ -576,7 +625,8 @@ def Resp.map {σ τ} (f : σ → τ) (r : Resp σ) : Resp τ :=
   { code := r.code, description := r.description, schema := r.schema.map f }
 def Operation.map {σ τ} (f : σ → τ) (o : Operation σ) : Operation τ :=
   { opId := o.opId, summary := o.summary, description := o.description, params := o.params.map (Param.map f),
-    body := o.body.map f, resps := sortResps (o.resps.map (Resp.map f)) }
+    body := o.body.map f, resps := sortResps (o.resps.map (Resp.map f)), tags := o.tags,
+    deprecated := o.deprecated, security := o.security }
 
 def dialect31 : B := s "https://spec.openapis.org/oas/3.1/dialect/2024-11-10"
 
